@@ -527,11 +527,39 @@ def decide_sim(pid, tier, sd):
         lines.append("VIOLATION property=%s replay=%s" % (pid, path))
         violation = True
     elif not ps["ok"]:
-        path = write_replay(pid, "tie", {"property": pid, "kind": "no-failing-input-found", "no_longer_checks": {"proofs_ok": ps["ok"], "proof_log": ps["build_log"] or ps["oblig_log"], "theorems": ps["names"], "forbidden": ps["forbidden"]},
-                                         "searched": "ran the real simulation binary: %s" % json.dumps(r["runs"])[:1500]})
-        lines.append("VIOLATION property=%s replay=%s no-failing-input-found" % (pid, path))
+        # the loop no longer has the proved shape: look for a run that stalls, also with one validator blocked (view changes)
+        extra = _sim_blocked_run()
+        if extra.get("stalled"):
+            path = write_replay(pid, "sim-blocked", {"property": pid, "kind": "monitor", "signature": "chain-not-extended/blocked-validator", "what": extra["desc"],
+                                                     "how": "go build ./internal/simulation && ./simulation -count 4 -watchers 0 -blocked 2 -duration 25s | grep 'approving block'", "run": extra})
+            lines.append("VIOLATION property=%s replay=%s" % (pid, path))
+        else:
+            path = write_replay(pid, "tie", {"property": pid, "kind": "no-failing-input-found", "no_longer_checks": {"proofs_ok": ps["ok"], "proof_log": ps["build_log"] or ps["oblig_log"], "theorems": ps["names"], "forbidden": ps["forbidden"]},
+                                             "searched": "ran the real simulation binary: %s; with a blocked validator: %s" % (json.dumps(r["runs"])[:1200], json.dumps(extra)[:400])})
+            lines.append("VIOLATION property=%s replay=%s no-failing-input-found" % (pid, path))
         violation = True
     return props.finish(pid, ev, lines, violation, known_sigs, known_hits)
+
+
+def _sim_blocked_run():
+    """the shipped example with validator 2 cut off (-blocked 2): the others must get past the heights where it is primary"""
+    binp = os.path.join(WORK, "bin", "simbin-b-%d" % os.getpid())
+    b = sh([GO, "build", "-o", binp, "./internal/simulation"], cwd=REPO, env=GOENV, check=False)
+    if b.returncode != 0:
+        return {"error": "build failed"}
+    try:
+        with Lock("sim-port-6060"):
+            p = sh("timeout 50 %s -count 4 -watchers 0 -blocked 2 -duration 25s 2>&1 | grep -a 'approving block' | head -500" % binp, check=False, timeout=90)
+    finally:
+        os.remove(binp)
+    heights = {}
+    for line in p.stdout.split("\n"):
+        m = re.search(r'"id": (\d+), "height": (\d+)', line)
+        if m:
+            heights[int(m.group(1))] = max(heights.get(int(m.group(1)), 0), int(m.group(2)))
+    top = max(heights.values()) if heights else 0
+    return {"heights": heights, "stalled": top < 3,
+            "desc": "simulation -count 4 -blocked 2 for 25 s: highest height reached %d (the view change at the height whose primary is blocked is never completed)" % top}
 
 
 DECIDERS["ref"] = decide_ref
